@@ -30,7 +30,7 @@ ASSUMPTIONS = ["storage conventions are taken from the fixtures: operands then o
 
 
 def sizes(tier):
-    return {"trees": 6000, "depth": 3, "per_doc": 200} if tier == "quick" else {"trees": 200_000, "depth": 5, "per_doc": 400}
+    return {"trees": 20000, "depth": 3, "per_doc": 200} if tier == "quick" else {"trees": 600_000, "depth": 5, "per_doc": 400}
 
 
 def rule(tier):
@@ -42,7 +42,7 @@ def rule(tier):
 
 def floors(tier):
     z = sizes(tier)
-    return {"evaluations": int(z["trees"] * .95), "distinct": int(z["trees"] * .7),
+    return {"evaluations": int(z["trees"] * .95), "distinct": int(z["trees"] * (.6 if tier == "quick" else .5)),
             "counters": {"formulas_read_reloaded": int(z["trees"] * .95), "formulas_read_open": 500, "trees_equal": int(z["trees"] * .9), "double_reads": 500,
                          "exhaustive_small": 1500},
             "hist_sizes": {"function": 250, "node_kind": 20}}
